@@ -6,6 +6,7 @@ package openapi3filter
 // same structure, typed by the declared schema.
 
 import (
+	"context"
 	"math"
 	"net/http"
 	"net/url"
@@ -600,6 +601,40 @@ func verifC05DeepNested(independent bool) {
 	}
 	if w, has := want["k"]; has {
 		verifAssert(verifSame(obj["k"], w), "C05 nested deepObject: the flat member decodes to its typed value")
+	}
+	verifReach("end")
+}
+
+//verif:harness id=C05 tier=quick,thorough witness=end bounds="deepObject with an undeclared property: schema {k: string} with additionalProperties absent / false / {type: string}; query p[k]=v1&p[zz]=v2 (texts of 1 printable byte): the undeclared member is part of the decoded value (so that additionalProperties can judge it), typed by the additionalProperties schema when there is one"
+func verifH_C05_deepobject_undeclared() {
+	obj := &openapi3.Schema{Type: &openapi3.Types{"object"}, Properties: openapi3.Schemas{"k": verifPrimSchema("string")}}
+	ap := verifChoose("ap", 3)
+	switch ap {
+	case 1:
+		f := false
+		obj.AdditionalProperties.Has = &f
+	case 2:
+		obj.AdditionalProperties.Schema = verifPrimSchema("string")
+	}
+	v1, v2 := verifLeaf("v1", 1, "[]=&"), verifLeaf("v2", 1, "[]=&")
+	q := url.Values{"p[k]": []string{v1}, "p[zz]": []string{v2}}
+	explode := true
+	param := &openapi3.Parameter{Name: "p", In: "query", Style: "deepObject", Explode: &explode, Schema: &openapi3.SchemaRef{Value: obj}}
+	input := &RequestValidationInput{QueryParams: q, Request: &http.Request{Method: "GET", Header: http.Header{}, URL: &url.URL{Path: "/"}}, PathParams: map[string]string{}, Options: &Options{}}
+	got, found, err := decodeStyledParameter(param, input)
+	verifAssert(err == nil && found, "C05 undeclared: the parameter decodes")
+	if err != nil {
+		return
+	}
+	m, ok := got.(map[string]any)
+	// known finding: members the schema does not declare are dropped by the decoder
+	verifKnown("C05-deepobject-undeclared-member-dropped", ap != 2)
+	verifAssert(ok && len(m) == 2 && m["k"] == v1 && m["zz"] == v2, "C05 undeclared: every member that was sent is in the decoded value")
+	verifKnown("C05-deepobject-undeclared-member-dropped", false)
+	if ap == 1 {
+		verifKnown("C05-deepobject-undeclared-member-dropped", true)
+		verifAssert(ValidateParameter(context.Background(), input, param) != nil, "C05 undeclared: additionalProperties false rejects the undeclared member")
+		verifKnown("C05-deepobject-undeclared-member-dropped", false)
 	}
 	verifReach("end")
 }
